@@ -35,6 +35,8 @@ Ops == {
   \* constructors that take existing values as arguments (the new value may hold them, it must not change them)
   O("rec_new_sd", "TP", "Dur", "Rec"), O("rec_new_de", "TP", "Dur", "Rec"), O("rec_new_se", "TP", "TP", "Rec"), O("rec_new_win", "TP", "TP", "Rec"),
   O("tp_zone_offset", "TP", "TP", "Zone"),
+  \* augmented assignment on an alias of the operand (x = a; x += b): must not write through to a
+  O("dur_iadd", "Dur", "Dur", "Dur"), O("tp_iadd", "TP", "Dur", "TP"), O("dur_imul", "Dur", "-", "Dur"),
   O("rec_eq", "Rec", "Rec", "-"), O("rec_hash", "Rec", "-", "-"), O("rec_str", "Rec", "-", "-"), O("rec_anchors", "Rec", "-", "TP")}
 
 Pool0 == <<"TP", "TP", "Dur", "Dur", "Zone", "Rec", "Rec", "TTP", "Zone">>
